@@ -57,6 +57,8 @@ fn dec_err_s(e: &DecodingError) -> &'static str {
         DecodingError::InvalidString => "err:invalid_string",
         DecodingError::DynamicNotSupported => "err:dynamic",
         DecodingError::IndexNotfound => "err:index_not_found",
+        #[allow(unreachable_patterns)]
+        _ => "err:other",
     }
 }
 
@@ -72,6 +74,9 @@ fn hpe_s(e: &HeadersParseError) -> &'static str {
         HeadersParseError::MissingPath => "missing_path",
         HeadersParseError::MissingStatusCode => "missing_status",
         HeadersParseError::InvalidStatusCode => "invalid_status",
+        // a variant this harness does not know (the enum may grow)
+        #[allow(unreachable_patterns)]
+        _ => "other",
     }
 }
 
@@ -1052,6 +1057,31 @@ pub fn generate(prop: &str, thorough: bool, rng: &mut Rng, emit: &mut Emit) {
             }
             for v in 0..300u64 {
                 emit("varint.rt", vec![s(v * 7919 % (1 << 20))]);
+            }
+            // what reaches the wire when the transport takes the bytes in pieces, with Pending
+            // answers in between (flow control): still exactly the frame / the stream header
+            for _ in 0..150 * scale {
+                let kind = *rng.pick(&["headers", "settings", "data"]);
+                let n = *rng.pick(&[0usize, 1, 2, 9, 40, 120, 700]);
+                let f = format!("{kind}:{}:-", hex(&rng.bytes(n)));
+                for _ in 0..3 {
+                    let mut sc = vec![];
+                    let mut left = n + 4;
+                    while left > 0 {
+                        if rng.chance(1, 3) {
+                            sc.push(Step::Pending);
+                        }
+                        let k = (rng.range(1, 40) as usize).min(left);
+                        sc.push(Step::Give(k));
+                        left -= k;
+                    }
+                    sc.push(Step::Give(8));
+                    emit("frame.writeasync", vec![f.clone(), fmt_script(&sc)]);
+                }
+                let sidv = gen_sid(rng);
+                let sc = vec![Step::Give(1), Step::Pending, Step::Give(1), Step::Pending, Step::Give(9)];
+                emit("frame.writeasync", vec![format!("wt:-:{sidv}"), fmt_script(&sc)]);
+                emit("sh.writeasync", vec![s("wt"), s(sidv), fmt_script(&sc)]);
             }
         }
         _ => super::ops3::generate(prop, thorough, rng, emit),
